@@ -122,6 +122,10 @@ def main():
         if inv not in r["violated"]:
             failures.append(f"{cfg}: expected {inv} to be violated")
         print(f"  {spec:12s} {cfg} -> violated {r['violated']}")
+    r = tlc.run("Reweight", "Reweight_pinned.cfg", timeout=300)
+    if "Majorises" not in r["violated"]:
+        failures.append("Reweight[DerivKind = wrt_signed] must violate Majorises")
+    print(f"  Reweight     signed derivative (LogSumPenalty at the pinned commit) -> violated {r['violated']}")
     for model, inv in (("ProxNewton", "CertSound"), ("AndersonCD", "Feasible"), ("GroupBCD", "HistFaithful"),
                        ("MultiTaskBCD", "CertSound")):
         base_cfg = open(tlc.SPECS + f"/mc/CDCore_{model}_pinned.cfg").read().replace("MaxIter = 2", "MaxIter = 1")
